@@ -39,7 +39,7 @@ PROP = "C10"
 RULE = ("cases = (program seed, number of steps 2-6, dtype, per-step annotations). Complete parts: every subset of the "
         "output blocks for outputs with <= 6 blocks (all cases); for every annotation key every ordered pair and triple "
         "of lattice values on a fixed 2/3-layer chain. Random part: stacks over 1-3 d roots (from_array ndarray / "
-        "array-like, ones, full, map_blocks block_id root) with random chunking and 27 step kinds (elementwise, "
+        "array-like, ones, full, map_blocks block_id root) with random chunking and 28 step kinds (elementwise, 2-3 sibling contraction layers with differently chunked contracted axes feeding one parent, "
         "transposes, same input twice with different index order, contractions with concatenate True/None, tensordot, "
         "broadcast vector/column, new axes, drop_axis, block_id, block_info, literals, delayed kwargs). non-trivial = "
         "some output has >= 2 blocks or at least one layer was absorbed by fusion; distinct = distinct (step trace, "
@@ -148,6 +148,8 @@ def _feat(trace):
     """input-feature predicate of a stack for labels: the first of a fixed priority list of step families that
     occurs in the stack (one label per mechanism; no seeds, sizes or conjunctions of incidental features)"""
     t = {s.split(":")[0] for s in trace}
+    if "sib_contract" in t:
+        return "sibling-contractions"
     if t & {"addT", "bw_twice", "bw_twice_tfirst", "tensordot", "outer"}:
         return "same-input-twice"
     if t & {"cat_matmul", "cat_sumlast", "drop_mb"}:
